@@ -598,6 +598,11 @@ class MessageAccumulator:
             if pending:
                 await pending[-1].wait_drain(timeout=timeout)
                 timeout -= time.monotonic() - start
+                # The producer may have been closed (or failed) while we waited
+                if self._closed:
+                    raise ProducerClosed()
+                if self._exception is not None:
+                    raise copy.copy(self._exception)
             else:
                 batch = self._append_batch(builder, tp)
                 return asyncio.shield(batch.future)
